@@ -2,6 +2,7 @@ package main
 
 import (
 	"fmt"
+	"strconv"
 	"go/constant"
 	"go/token"
 	"go/types"
@@ -380,7 +381,19 @@ func (c *TermCtx) binop(v *ssa.BinOp) *Term {
 			x, y = y, x
 		}
 	}
-	// x - const ==> x + (-const)  is NOT applied (keeps shapes readable); linear forms are compared by linear()
+	// integer literal arithmetic is folded (path-resolved loop counters: 0+1 → 1)
+	if x.Op == "const" && y.Op == "const" && isInteger(v.Type()) {
+		if a, err1 := strconv.ParseInt(x.Sym, 10, 64); err1 == nil {
+			if b, err2 := strconv.ParseInt(y.Sym, 10, 64); err2 == nil {
+				switch op {
+				case token.ADD:
+					return mk("const", strconv.FormatInt(a+b, 10), v)
+				case token.SUB:
+					return mk("const", strconv.FormatInt(a-b, 10), v)
+				}
+			}
+		}
+	}
 	return mk("bin", op.String(), v, x, y)
 }
 
